@@ -8,7 +8,6 @@ import (
 	"math/rand"
 	"testing"
 
-	"github.com/platinummonkey/go-concurrency-limits/core"
 	"github.com/platinummonkey/go-concurrency-limits/limit"
 	"pgregory.net/rapid"
 
@@ -178,95 +177,81 @@ func TestC15_baseline(t *testing.T) {
 // ---- "unset" probe multipliers ---------------------------------------------------------------------
 //
 // The staleness bound is stated for every probe multiplier. A non-positive multiplier means "not set" (the
-// library's own default constructors pass -1) and selects the default multiplier, whatever its value: a Vegas
-// limit built with a negative multiplier must therefore behave, sample for sample, like the one built with 0
-// (same jitter source), and the default constructors like the long constructor with every argument unset. The
-// numeric default is not assumed.
+// library's own default constructors pass -1) and selects the library's default multiplier. Its value is not
+// assumed here; only that it is a multiplier at all: after an RTT step up the obsolete low baseline must be reset
+// within 1000 x (limit + 1) further samples (the shipped default is 30; nothing is asserted about it). No random
+// source needs to be reproducible for this.
 
 type c15uCase struct {
-	Cfg  LimitCfg `json:"cfg"`
-	Neg  int      `json:"neg"`  // the negative multiplier of twin B
-	Ctor int      `json:"ctor"` // twin B: 0 long constructor, 1 NewDefaultVegasLimitWithLimit, 2 NewDefaultVegasLimit (initial 20)
-	Segs []c15Seg `json:"segs"`
+	Cfg   LimitCfg `json:"cfg"`
+	Neg   int      `json:"neg"`  // the non-positive multiplier
+	Ctor  int      `json:"ctor"` // 0 long constructor, 1 NewDefaultVegasLimitWithLimit, 2 NewDefaultVegasLimit (initial 20)
+	LowN  int      `json:"low_n"`
+	Low   int64    `json:"low"`
+	High  int64    `json:"high"`
+	Steps int      `json:"steps"` // further step-ups after the first reset
 }
 
+const c15uSanityMultiplier = 1000
+
 func runC15U(_ *testing.T, c c15uCase) kit.Outcome {
-	type obs struct {
-		est  int
-		base int64
-	}
-	feed := func(l core.Limit) (tr []obs, resets int) {
-		var prev int64
-		for _, sg := range c.Segs {
-			for i := 0; i < sg.Len; i++ {
-				rtt := sg.RTT
-				if sg.Jit > 0 {
-					rtt += int64(i*7919) % (sg.Jit + 1)
-				}
-				l.OnSample(0, rtt, Sample{Rel: sg.Rel, Inf: 3}.inflight(l.EstimatedLimit()), sg.Drop)
-				base := l.(rttNoLoader).RTTNoLoad()
-				if base > prev && prev != 0 {
-					resets++ // the baseline can only rise through a reset
-				}
-				prev = base
-				tr = append(tr, obs{l.EstimatedLimit(), base})
-			}
-		}
-		return
-	}
-	cfgA := c.Cfg
-	cfgA.ProbeMult = 0
-	a, resetsA := feed(buildLimit(cfgA, nil).Inner)
-	var lb core.Limit
+	var l *limit.VegasLimit
+	rand.Seed(c.Cfg.JitterSeed)
 	switch c.Ctor {
 	case 1:
-		rand.Seed(c.Cfg.JitterSeed)
-		lb = limit.NewDefaultVegasLimitWithLimit("t", c.Cfg.Initial, nil, nil)
+		l = limit.NewDefaultVegasLimitWithLimit("t", c.Cfg.Initial, nil, nil)
 	case 2:
-		rand.Seed(c.Cfg.JitterSeed)
-		lb = limit.NewDefaultVegasLimit("t", nil, nil)
+		l = limit.NewDefaultVegasLimit("t", nil, nil)
 	default:
-		cfgB := c.Cfg
-		cfgB.ProbeMult = c.Neg
-		lb = buildLimit(cfgB, nil).Inner
+		cfg := c.Cfg
+		cfg.ProbeMult = c.Neg
+		l = buildLimit(cfg, nil).Inner.(*limit.VegasLimit)
 	}
-	b, resetsB := feed(lb)
-	for i := range a {
-		if a[i] != b[i] {
-			return kit.Viol("vegas:unset-multiplier", "Vegas built with probe multiplier 0 and its twin (constructor variant %d, multiplier %d: both \"not set\") diverge at sample %d: estimate/baseline %v vs %v; baseline resets seen: %d vs %d",
-				c.Ctor, c.Neg, i+1, a[i], b[i], resetsA, resetsB)
+	// app-limited, drop-free samples only: the estimate does not move, the probe counter does
+	for i := 0; i < c.LowN; i++ {
+		l.OnSample(0, c.Low, 0, false)
+	}
+	if b := l.RTTNoLoad(); b != c.Low {
+		return kit.Viol("vegas:baseline", "after %d samples of rtt=%d the baseline reads %d", c.LowN, c.Low, b)
+	}
+	resets := 0
+	rtt := c.High
+	for step := 0; step <= c.Steps; step++ {
+		est := l.EstimatedLimit()
+		bound := c15uSanityMultiplier*(est+1) + 1
+		before := l.RTTNoLoad()
+		reset := false
+		for i := 0; i < bound; i++ {
+			l.OnSample(0, rtt, 0, false)
+			if l.RTTNoLoad() > before {
+				reset = true
+				break
+			}
 		}
+		if !reset {
+			return kit.Viol("vegas:unset-multiplier", "Vegas built with the \"not set\" probe multiplier %d (constructor variant %d), estimate %d: after the RTT rose from %d to %d the obsolete baseline %d survived %d samples - no multiplier, however large its default, allows that (the sanity bound is %d x (limit+1))",
+				c.Neg, c.Ctor, est, before, rtt, before, bound, c15uSanityMultiplier)
+		}
+		resets++
+		rtt = rtt*2 + 1
 	}
-	return kit.Outcome{NonTrivial: resetsA >= 1, Labels: []string{fmt.Sprintf("ctor:%d", c.Ctor), fmt.Sprintf("resets>=1:%v", resetsA >= 1)}}
+	return kit.Outcome{NonTrivial: resets >= 1, Labels: []string{fmt.Sprintf("ctor:%d", c.Ctor), fmt.Sprintf("neg:%d", c.Neg)}}
 }
 
 func TestC15_unset_multiplier(t *testing.T) {
 	kit.RequireMode(t, "std")
 	kit.Check(t, kit.Prop[c15uCase]{
 		ID: "C15", Quick: 600, Thor: 60_000,
-		Rule: "Vegas twins fed the same RTT plateaus/steps from the same jitter source: probe multiplier 0 vs a negative one, or vs the library's default constructors (which pass -1); estimates and baselines must agree sample for sample; non-trivial = the baseline was reset (rose) at least once",
+		Rule: "Vegas built with a non-positive (\"not set\") probe multiplier (0, -1, other negatives, or through the library's default constructors, which pass -1), fed app-limited drop-free samples: after each RTT step up the obsolete baseline is reset within 1000 x (limit+1) samples (a sanity bound far above any plausible default); non-trivial = every case (at least one reset observed)",
 		Gen: func(t *rapid.T) c15uCase {
-			c := c15uCase{Neg: rapid.SampledFrom([]int{-1, -1, -2, -30, math.MinInt32}).Draw(t, "neg"), Ctor: rapid.SampledFrom([]int{0, 0, 1, 2}).Draw(t, "ctor")}
+			c := c15uCase{Neg: rapid.SampledFrom([]int{-1, -1, 0, -2, -30, math.MinInt32}).Draw(t, "neg"), Ctor: rapid.SampledFrom([]int{0, 0, 1, 2}).Draw(t, "ctor")}
 			c.Cfg = LimitCfg{Algo: "vegas", JitterSeed: rapid.Int64Range(1, 1<<40).Draw(t, "jitter"), Initial: rapid.IntRange(1, 12).Draw(t, "initial")}
-			switch c.Ctor {
-			case 0:
-				c.Cfg.Max = rapid.IntRange(c.Cfg.Initial, 20).Draw(t, "max")
-				c.Cfg.Smoothing = genSmoothing().Draw(t, "smoothing")
-			case 1:
-				c.Cfg.Max, c.Cfg.Smoothing = -1, -1 // what the default constructor passes: "not set"
-			case 2:
-				c.Cfg.Initial, c.Cfg.Max, c.Cfg.Smoothing = -1, -1, -1
-			}
-			nseg := rapid.IntRange(2, 6).Draw(t, "nseg")
-			for i := 0; i < nseg; i++ {
-				s := c15Seg{RTT: rapid.OneOf(rapid.Int64Range(1, 100), rapid.Int64Range(1, 10_000_000)).Draw(t, "rtt"),
-					Rel: rapid.SampledFrom([]string{"eq", "dbl", "half", ""}).Draw(t, "rel"), Drop: rapid.IntRange(0, 9).Draw(t, "drop") == 0,
-					Len: rapid.OneOf(rapid.IntRange(1, 20), rapid.IntRange(200, 1500)).Draw(t, "len")}
-				if rapid.IntRange(0, 2).Draw(t, "jit") == 0 {
-					s.Jit = rapid.Int64Range(1, 50).Draw(t, "jitv")
-				}
-				c.Segs = append(c.Segs, s)
-			}
+			c.Cfg.Max = rapid.IntRange(c.Cfg.Initial, 20).Draw(t, "max")
+			c.Cfg.Smoothing = genSmoothing().Draw(t, "smoothing")
+			c.LowN = rapid.IntRange(1, 5).Draw(t, "lowN")
+			c.Low = rapid.Int64Range(1, 1_000_000).Draw(t, "low")
+			c.High = c.Low + rapid.Int64Range(1, 1_000_000).Draw(t, "dhigh")
+			c.Steps = rapid.IntRange(0, 2).Draw(t, "steps")
 			return c
 		},
 		Run: runC15U,
